@@ -5,6 +5,7 @@
 //!   vx-replay finding <id>                         re-run the witness of a known finding
 //!   vx-replay replay  <case...>                    re-execute one recorded case
 mod c05;
+mod c0607;
 mod c08;
 mod c09;
 mod c13;
@@ -76,6 +77,15 @@ fn main() {
                 "C08" => c08::search(seed, full, &rt),
                 "C17" => c17::search(seed, full),
                 "C05" => c05::search(seed, full, &rt),
+                "C06" => c0607::search(pid, seed, full, &rt),
+                "C07" => {
+                    // the history verifier on tampered proofs + the marker sets it relies on
+                    let a = c0607::search(pid, seed, full, &rt);
+                    let b = c08::search(seed, full, &rt);
+                    let mut failures = a.failures;
+                    failures.extend(b.failures);
+                    SearchResult { evaluations: a.evaluations + b.evaluations, failures, summary: format!("{}; {}", a.summary, b.summary) }
+                }
                 "C09" => c09::search(seed, full, &rt),
                 "C13" => c13::search(seed, full, &rt),
                 "C15" => c15::search(seed, full, &rt),
@@ -98,6 +108,7 @@ fn main() {
                 "c08" => c08::replay(&case[1..], &rt),
                 "c17" => c17::replay(&case[1..]),
                 "c05" => c05::replay(&case[1..], &rt),
+                "c06" | "c07" => c0607::replay(case[0], &case[1..], &rt),
                 "c09" => c09::replay(&case[1..], &rt),
                 "c13" => c13::replay(&case[1..], &rt),
                 "c15" => c15::replay(&case[1..], &rt),
